@@ -494,7 +494,31 @@ func c7Random(rng *rand.Rand, s *world.Spec) string {
 	return strings.Join(what, "+")
 }
 
+func c07Concurrent(r *hx.Run) {
+	var ws []*world.World
+	for i := 0; i < 6; i++ {
+		rng := rand.New(rand.NewPCG(r.Seed, 0x0707<<16|uint64(i)))
+		s := honestSpec(rng)
+		s.GC = true
+		s.Fault = fmt.Sprintf("matching-qe-%d", i)
+		if i%2 == 1 {
+			// a QE report with an attribute bit the identity's mask covers and its value forbids (e.g. DEBUG)
+			b, _ := hex.DecodeString(s.Qe.AttributesMask)
+			v, _ := hex.DecodeString(s.Qe.Attributes)
+			b[0] |= 0x02
+			v[0] &^= 0x02
+			s.Qe.AttributesMask, s.Qe.Attributes = hex.EncodeToString(b), hex.EncodeToString(v)
+			s.Quote.QeReport.Attributes[0] |= 0x02
+			s.Honest = false
+			s.Fault = fmt.Sprintf("qe-attribute-bit-forbidden-by-the-identity-%d", i)
+		}
+		ws = append(ws, world.Build(s))
+	}
+	cvConcurrent(r, "C07", ws, map[bool]time.Duration{true: 8 * time.Second, false: 2 * time.Second}[r.Tier == "thorough"])
+}
+
 func c07(r *hx.Run) {
+	defer c07Concurrent(r)
 	thorough := r.Tier == "thorough"
 	faults := c7Faults(thorough)
 	reps, nRandom := 1, 900
